@@ -15,7 +15,7 @@ Print Assumptions C18_capture.
 (* only the SEND instant is restricted to the era: a packet sent in its last 64 seconds may arrive after
    its end, where toNtpTime wraps modulo 2^64 - Estimate looks at differences only and is not disturbed *)
 Theorem C18_estimate : forall send delay,
-  in_era send -> 0 <= delay < max_delay ->
+  in_era send -> 0 <= delay <= max_delay ->
   0 <= send - estimate (new_abs_send_time send) (send + delay) <= 3816.
 Proof. exact estimate_recovers_any. Qed.
 Print Assumptions C18_estimate.
@@ -35,6 +35,13 @@ Proof.
   unfold in_era, ntp_epoch_offset. split; [split; [vm_compute; congruence|vm_compute; reflexivity]|].
   split; [intros [_ H]; vm_compute in H; discriminate H|vm_compute; reflexivity].
 Qed.
+
+(* the bound is the largest whole number of nanoseconds below 64 s - 2^-18 s (63999996185.3 ns) and is itself
+   admitted; there the error reaches the resolution of the field: 3815 ns (2^-18 s = 3814.7 ns) *)
+Example C18_estimate_at_the_bound :
+  max_delay = 63999996185 /\
+  1436164031999996185 - estimate (new_abs_send_time 1436164031999996185) (1436164031999996185 + max_delay) = 3815.
+Proof. split; vm_compute; reflexivity. Qed.
 
 Example C18_nonvacuous :
   in_era 1700000063999999999 /\ in_era (1700000063999999999 + 63900000000) /\
